@@ -48,3 +48,17 @@ package blobserver
 //@   loop 0 invariant idx: 0 - 1 <= rangeindex && rangeindex < len(tasks)
 //@   loop 0 invariant synced: forall i int :: 0 <= i && i <= rangeindex ==> (tasks[i] in s.writeBackManager.synced)
 //@   loop 0 invariant same: s.cas == entry(s.cas) && s.cas.cacheStore == entry(s.cas.cacheStore) && s.writeBackManager == entry(s.writeBackManager) && ((name in s.cas.cacheStore.persisted) <==> entry(name in s.cas.cacheStore.persisted))
+
+// ---- C33, origin side: replicating a blob to a remote origin cluster ----------------------------
+// The handler behind ClusterClient.ReplicateToRemote answers success only when the remote cluster
+// accepted the blob (UploadBlob returned nil); a blob that is not in the local cache yet is
+// answered with a non-nil status (202 / 404 / 503), never with success.
+//@ func Server.startRemoteBlobDownload
+//@   requires s != nil
+//@   modifies *
+//@   ensures never_success: result != nil
+
+//@ func Server.replicateToRemote
+//@   requires s != nil && s.cas != nil && s.clusterProvider != nil && s.cas.cacheStore != nil && (s.cas.memCache == nil || s.cas.memCache.entries != nil)
+//@   modifies *
+//@   ensures success_means_remote_has_it: result == nil ==> (exists c blobclient.ClusterClient :: (d.hex in c.present))
